@@ -1,26 +1,25 @@
 import Cherab.Model.Repository
 import Cherab.Gen.RepoPaths
 
+/-!
+# C06 — obligations on the tables generated from /repo's current source (`Cherab/Gen/RepoPaths.lean`)
+
+Structural facts, by `decide` over the complete tables: every getter reads where its family writes, every path template
+has the components its family's key demands, no two families can produce the same path.
+(`add_matches_update` and `all_paths_under_root` live in `C06TableAdd.lean` / `C06TableRoot.lean`, the conjunction
+`tables_wellformed` — the hypothesis of every theorem of `Props/C06.lean` — in `C06TableAll.lean`, so that a table that
+violates one of them does not hide the others.)
+-/
 namespace Cherab.Props.C06Table
 open Cherab.Repository Cherab.Gen.RepoPaths
 
-/-- every `add_y` runs the code of, and writes with the path template of, the family it is named after -/
-theorem add_matches_update : tables.addMatches = true := by decide
-
-/-- every `get_z` reads where the family it is named after writes -/
+/-- every `get_z` reads the path template the family it is named after writes with, with the class it is named after -/
 theorem get_matches_update : tables.getMatches = true := by decide
 
-/-- every path template has the components the family's key demands -/
+/-- every path template has exactly the components the family's key demands, and the extension `.json` -/
 theorem templates_shaped : tables.shapesOk = true := by decide
 
 /-- no two families can produce the same path -/
 theorem templates_disjoint : tables.disjointOk = true := by decide
-
-/-- every front-end passes `repository_path` on -/
-theorem all_paths_under_root : tables.rootPassed = true := by decide
-
-theorem tables_wellformed : tables.wellFormed = true := by
-  simp only [Tables.wellFormed, add_matches_update, get_matches_update, templates_shaped, templates_disjoint,
-    all_paths_under_root, Bool.and_self]
 
 end Cherab.Props.C06Table
